@@ -130,7 +130,7 @@ def output_algorithm(out: OutputBuffer, alg_db: Dict[str, Dict[str, List[List[Op
         alg_name = "%s-*" % alg_name[0:last_dash]
 
     texts = []
-    if len(alg_name.strip()) == 0:
+    if len(alg_name) == 0:  # An empty name (from "a,,b" or a trailing comma) is not an algorithm.  A name made of characters that strip() regards as blanks (U+00A0, U+2028, ...) is one: an unknown one.
         return program_retval
     alg_name_native = Utils.to_text(alg_name)
     if alg_name_native in alg_db[alg_type]:
